@@ -32,6 +32,9 @@ Bad(r) ==
        \cup (IF r.pay.delay_far = Params(o).pdelta THEN {} ELSE {"PolicyDelta"})
        \cup (IF r.pay.delay_near = r.near_expected THEN {} ELSE {"SafetyDelta"})
        \cup (IF r.near_gap = Add(o.sdelta.d, r.near_expected) /\ Leq(r.near_expected, o.pdelta.d) THEN {} ELSE {"HarnessNear"})
+       \* expiry one block above the policy delta: expiry - height - safety delta (< policy delta) is what may be granted
+       \cup (IF r.mid_probed => r.pay.delay_mid = r.mid_expected THEN {} ELSE {"SafetyDeltaAbovePolicy"})
+       \cup (IF r.mid_probed => (r.mid_gap = Add(o.sdelta.d, r.mid_expected) /\ Leq(r.mid_expected, o.pdelta.d)) THEN {} ELSE {"HarnessMid"})
        \cup (IF r.pay.label = ~o.xpay /\ r.pay.risk = ~o.xpay THEN {} ELSE {"Xpay"})
        \cup (IF r.hint = (IF o.nohints THEN "failnode" ELSE "held") THEN {} ELSE {"SelfHints"})
        \cup (IF r.mppclass \in {"ontime", "na"} THEN {} ELSE {"MppTimeout"})
